@@ -31,7 +31,8 @@ def run(tier):
     wd = C.workdir("c02")
     C.build_harness()
     verdict = C.Verdict(PROP)
-    n, stmts = (500, 6) if tier == "quick" else (8000, 8)
+    # many short programs: a program stops at its first failure, and the optimiser-aimed families fail on purpose
+    n, stmts = (900, 4) if tier == "quick" else (14000, 5)
     tp = os.path.join(wd, "opt.ndjson")
     _, out, _ = C.run_vh(["record", "opt", tp, "--seed", str(C.seed()), "--n", str(n), "--stmts", str(stmts)])
     meta = json.loads(out.strip().splitlines()[-1])
